@@ -317,7 +317,10 @@ PrintExpr(e) ==
     [] e.t = "cat" -> Flatten([j \in 1..Len(e.a) |-> PrintExpr(e.a[j])])
     [] OTHER -> <<123>> \o FName(e.t) \o Flatten([j \in 1..Len(e.a) |-> <<32>> \o PrintExpr(e.a[j])]) \o <<125>>
 
-\* configuration: [groups : seq of [name, e], cols : seq of [name, init, e]]
+\* configuration: [groups : seq of [name, e], cols : seq of [name, init, e], sort : <<>> or <<e>>]
+\* `sort` is the --sort expression the instance is given (SetSort).  It is evaluated by Groups() only -
+\* an accessor: whatever it is, reading the groups is a stuttering step (AObserve).  The ORDER of the
+\* listing is property C13's business and is not specified here.
 \* state: data : group key -> row (sequence of column values)
 AccInit == EmptyFn
 AccGroupKey(cfg, el) ==
@@ -338,8 +341,15 @@ RECURSIVE AccFold(_, _)
 AccFold(cfg, h) == IF h = <<>> THEN AccInit ELSE AccStep(cfg, AccFold(cfg, SubSeq(h, 1, Len(h) - 1)), h[Len(h)])
 
 \* sample configurations (shared by the model checker, the generator and the trace validator)
+\* Profiles 1-3: group expressions built from match groups only.  Profiles 4-6: the evaluation
+\* context itself is under test - group expressions that name a data column, the current value
+\* `{.}` or an unknown key (all of them are EMPTY while the group is being determined: the group
+\* of a sample is a function of the sample alone, AccGroupKey has no state argument), and data
+\* expressions that read one column both BEFORE and AFTER its own update in the same sample,
+\* name a group column (not a key: empty) or an unknown key.
 nTotal == <<116, 111, 116>>   nCnt == <<99, 110, 116>>   nHi == <<104, 105>>   nPrev == <<112, 114, 101, 118>>
-nCat == <<99, 97, 116>>   nG == <<103>>   nH == <<104>>
+nCat == <<99, 97, 116>>   nG == <<103>>   nH == <<104>>   nK == <<107>>
+nBef == <<98, 101, 102>>   nAft == <<97, 102, 116>>   nLast == <<108, 97, 115, 116>>   nNoSuch == <<110, 111, 112, 101>>
 Col(name, init, e) == [name |-> name, init |-> init, e |-> e]
 Grp(name, e) == [name |-> name, e |-> e]
 AccCfgOf(profile) ==
@@ -349,9 +359,26 @@ AccCfgOf(profile) ==
                  Col(nHi, <<45, 57>>, EF("maxi", <<EK(DOT), EM(2)>>)),
                  Col(nCat, <<>>, EF("cat", <<EK(DOT), EM(1), ELit(<<44>>)>>)),
                  Col(nG, <<>>, EF("mini", <<EK(nCnt), EK(nHi)>>)) >>          \* refers to EARLIER columns: new values
-  IN CASE profile = 1 -> [groups |-> <<Grp(nG, EM(1))>>, cols |-> cols]
-       [] profile = 2 -> [groups |-> <<Grp(nG, EM(1)), Grp(nH, EM(2))>>, cols |-> SubSeq(cols, 2, 4)]
-       [] OTHER       -> [groups |-> <<>>, cols |-> cols]
+      \* one column read before and after its update; a plain copy of a match group; group name / unknown key
+      cols4 == << Col(nBef, <<48>>, EF("sumi", <<EK(nTotal), ELit(<<48>>)>>)),
+                  Col(nTotal, <<48>>, EF("sumi", <<EK(DOT), EM(2)>>)),
+                  Col(nAft, <<48>>, EF("sumi", <<EK(nTotal), ELit(<<48>>)>>)),
+                  Col(nLast, <<45>>, EF("cat", <<EM(2), EK(nG), EK(nNoSuch)>>)) >>
+      cols5 == << Col(nCnt, <<48>>, EF("sumi", <<EK(DOT), ELit(<<49>>)>>)),
+                  Col(nLast, <<>>, EF("cat", <<EM(1)>>)),
+                  Col(nHi, <<48>>, EF("maxi", <<EK(nCnt), EK(DOT), EK(nCnt)>>)) >>
+  IN CASE profile = 1 -> [groups |-> <<Grp(nG, EM(1))>>, cols |-> cols, sort |-> <<>>]
+       [] profile = 2 -> [groups |-> <<Grp(nG, EM(1)), Grp(nH, EM(2))>>, cols |-> SubSeq(cols, 2, 4), sort |-> <<>>]
+       \* 4: one group "<m1>/<tot>" - the column reference must read as empty: "<m1>/"
+       [] profile = 4 -> [groups |-> <<Grp(nG, EF("cat", <<EM(1), ELit(<<47>>), EK(nTotal)>>))>>, cols |-> cols4,
+                          sort |-> <<EK(nTotal)>>]
+       \* 5: three groups <m1>, {.}, {last}: always "<m1>" NUL "" NUL ""
+       [] profile = 5 -> [groups |-> <<Grp(nG, EM(1)), Grp(nH, EK(DOT)), Grp(nK, EK(nLast))>>, cols |-> cols5,
+                          sort |-> <<EF("cat", <<EK(nCnt), EM(0), EK(DOT)>>)>>]
+       \* 6: no match group at all in the grouping: one group, whatever the columns hold
+       [] profile = 6 -> [groups |-> <<Grp(nG, EF("cat", <<EK(nCnt), EK(DOT), EK(nNoSuch)>>))>>, cols |-> cols5,
+                          sort |-> <<EK(nHi)>>]
+       [] OTHER       -> [groups |-> <<>>, cols |-> cols, sort |-> <<>>]
 
 \* ------------------------------------------------------------ state machine
 CONSTANTS Elems,      \* the samples that may arrive
